@@ -76,10 +76,119 @@ def kind_of(m, expr):
     return "?" + src[:40]
 
 
-def arg_loop(f):
-    """The main option loop: the `while` whose body dispatches on arg == '-...' (the second one; the first handles --config)."""
-    loops = [n for n in f.body if isinstance(n, ast.While)]
-    return loops
+def _conv_hook(ev, node, rname, args, kwargs, path):
+    # float()/int() are identities for the algebra; here they are the documented interpretation of an option value
+    if rname in ("float", "int") and len(args) == 1 and isinstance(args[0], Rat):
+        return form.apply("conv:" + rname, [args[0]])
+    return None
+
+
+def option_effects(m, loop, flag):
+    """By value: the body of the option loop folded once with `arg` fixed to the literal flag, everything else symbolic.
+    -> (changed variables {name: value}, arguments consumed (1 or 2, None if unclear), the symbol standing for the next argument)
+    or None when the body cannot be folded.  Independent of how the dispatch is written (elif chain, `arg in TABLE`, helper)."""
+    body = [st for st in loop.body if not (isinstance(st, ast.Assign) and any(isinstance(t, ast.Name) and t.id == "arg" for t in st.targets))]
+    names = set(n.id for n in ast.walk(loop) if isinstance(n, ast.Name))
+    ev = symeval.Evaluator(m, call_hook=_conv_hook)
+    ev.merge_ifs = True
+    probe = symeval.Evaluator(m)
+    env = {n: Rat.sym(n) for n in names if n not in m.aliases and n not in ("int", "float", "len", "arg", "str", "range", "list", "True", "False", "None")
+           and probe._module_constant(n, None) is None}
+    env["arg"] = form.apply("str:" + repr(flag), [])
+    base = dict(env)
+    try:
+        live = ev.run_stmts(body, env=env)
+    except (symeval.Undecided, AnalysisError, RecursionError):
+        return None
+    if len(live) != 1:
+        return None
+    changed = {}
+    for k, v in live[0].env.items():
+        if k in ("arg", "arg_next") or "." in k:
+            continue
+        if k not in base or not isinstance(v, Rat) or v.key() != base[k].key():
+            changed[k] = v
+    consumed = None
+    iv = changed.pop("i", None)
+    if isinstance(iv, Rat):
+        d = (iv - Rat.sym("i")).const_value()
+        consumed = int(d) if d is not None else None
+    nxt = ev.ev(ast.parse("argv[i + 1]", mode="eval").body, symeval.Path(dict(base), []))
+    return changed, consumed, nxt
+
+
+def kind_of_value(v, nxt):
+    """How an option value is interpreted, read off the VALUE the option variable receives (nxt = the next command-line word)."""
+    if isinstance(v, list):
+        return "?list"
+    c = v.const_value()
+    if c is not None:
+        return "true" if c == 1 else ("false" if c == 0 else "?const")
+    if v.key() == nxt.key():
+        return "raw"
+    at = v.as_atom()
+    if at is None:
+        return "?" + v.key()[:40]
+    a0 = at.args[0] if at.args and isinstance(at.args[0], Rat) else None
+    on_next = a0 is not None and a0.key() == nxt.key()
+    f = at.func
+    if f == "call:verif.util.parse_numbers" and on_next:
+        extra = [a for a in at.args[1:] if isinstance(a, Rat)] + [kv[1] for kv in (getattr(at, "kwargs", None) or ()) if isinstance(kv[1], Rat)]
+        if not extra:
+            return "numbers"
+        return "dates" if extra[0].const_value() == 1 else "numbers"
+    simple = {"call:verif.util.parse_dates": "dates", "call:verif.util.parse_ints": "intlist", "call:verif.util.parse_label": "label",
+              "call:verif.util.parse_colors": "colors", "conv:float": "float", "conv:int": "int", "call:verif.axis.get": "axis",
+              "call:verif.aggregator.get": "aggregator", "call:verif.field.get": "field", "call:verif.input.get_input": "input"}
+    if f in simple and on_next and len(at.args) == 1:
+        return simple[f]
+    if f in ("nparray", "call:numpy.array") and a0 is not None and kind_of_value(a0, nxt) == "numbers":
+        return "array"
+    if f == "m:split" and len(at.args) == 2 and isinstance(at.args[1], Rat) and _strval(at.args[1]) == ",":
+        if on_next:
+            return "list"
+        if a0 is not None and kind_of_value(a0, nxt) == "label":
+            return "labellist"
+    if f == "m:replace" and on_next and len(at.args) == 3 and [_strval(x) for x in at.args[1:]] == ["_", " "]:
+        return "underscore"
+    if f == "map" and len(at.args) == 2 and isinstance(at.args[1], Rat) and kind_of_value(at.args[1], nxt) == "numbers":
+        b = at.args[0].as_atom() if isinstance(at.args[0], Rat) else None
+        if b is not None and b.func == "conv:int" and len(b.args) == 1 and isinstance(b.args[0], Rat) and (b.args[0].as_atom() is not None) \
+                and b.args[0].as_atom().func.startswith("elem"):
+            return "ints"
+    return "?" + v.key()[:40]
+
+
+def _strval(r):
+    return symeval._strval(r)
+
+
+def arg_loop(f, prog=None):
+    """[the --config loop, the option loop].  The option loop is the top-level `while` of run() that collects the positional
+    arguments (it mentions `ifiles`); the --config loop is the other top-level `while` that mentions '--config' - or, when the
+    reading of config files was moved into a helper of verif.driver, the loop inside that helper."""
+    whiles = [n for n in f.body if isinstance(n, ast.While)]
+    opt = [n for n in whiles if any(isinstance(x, ast.Name) and x.id == "ifiles" for x in ast.walk(n))]
+    def mentions_config(n):
+        return any(isinstance(x, ast.Constant) and x.value == "--config" for x in ast.walk(n))
+    cfg = [n for n in whiles if n not in opt and mentions_config(n)]
+    if not cfg and prog is not None:
+        dm = prog.module("verif.driver")
+        called = set(dotted(c.func) for st in f.body for c in ast.walk(st) if isinstance(c, ast.Call) and dotted(c.func))
+        for name, g in dm.functions.items():
+            if name in called and g is not f:
+                cfg += [n for n in ast.walk(g) if isinstance(n, (ast.While, ast.For)) and mentions_config(n)][:1]
+    if len(opt) != 1 or len(cfg) != 1:
+        return whiles
+    return [cfg[0], opt[0]]
+
+
+def _top_stmt_index(f, node):
+    """Index of the top-level statement of f that contains node, or - for a node inside a helper - that calls the helper."""
+    for i, st in enumerate(f.body):
+        if any(n is node for n in ast.walk(st)):
+            return i
+    return None
 
 
 def branches(m, loop):
@@ -126,7 +235,7 @@ def check_options(ctx, which, rule, table):
     site = "verif.driver.run"
     m = prog.module("verif.driver")
     f = prog.func(site)
-    loops = arg_loop(f)
+    loops = arg_loop(f, prog)
     ctx.need(len(loops) == 2, "%s: expected the --config loop and the option loop" % site)
     br, top, rest, guard, final = branches(m, loops[1])
     # variable -> sinks
@@ -178,17 +287,33 @@ def check_options(ctx, which, rule, table):
                         if isinstance(nm, ast.Name):
                             pl_attr.setdefault(nm.id, set()).add(attr_)
     for flag, (kind, sink) in sorted(table.items()):
+        # by value first: what the loop body does when arg is this flag (however the dispatch is spelled); the syntactic branch
+        # table is the fallback where the body cannot be folded
+        eff = option_effects(m, loops[1], flag)
         hit = br.get(flag)
-        ctx.ob(rule, site, hit is not None, "flag %s is parsed" % flag, msg="documented flag %s has no branch in the argument loop" % flag)
-        if hit is None:
+        by_value = eff is not None and bool(eff[0]) and eff[1] in (1, 2)
+        ctx.ob(rule, site, by_value or hit is not None, "flag %s is parsed" % flag, msg="documented flag %s has no branch in the argument loop" % flag)
+        if not by_value and hit is None:
             continue
-        node, has_value = hit
-        loc = prog.loc(m, node)
+        foreign = None
+        if by_value:
+            changed, consumed, nxt = eff
+            has_value = consumed == 2
+            loc = prog.loc(m, hit[0] if hit else loops[1])
+            kinds = {k: kind_of_value(v, nxt) for k, v in changed.items()}
+            allowed = {"$argv", "$i", "$arg_next"} | set("$" + k for k in changed)
+            foreign = set()
+            for v in changed.values():
+                if isinstance(v, Rat):
+                    foreign |= set(x for x in re.findall(r"\$[A-Za-z_][A-Za-z_0-9]*", v.key()) if x not in allowed and x not in ("$None", "$True", "$False", "$nan", "$inf"))
+        else:
+            node, has_value = hit
+            loc = prog.loc(m, node)
+            assigns = [st for st in node.body if isinstance(st, ast.Assign) and len(st.targets) == 1 and isinstance(st.targets[0], ast.Name)]
+            kinds = {st.targets[0].id: kind_of(m, st.value) for st in assigns}
         want_value = kind not in ("true", "false")
         ctx.ob(rule, site, has_value == want_value, "%s %s a value" % (flag, "takes" if want_value else "takes no"), loc=loc,
                msg="%s is parsed %s a value but documented %s one" % (flag, "with" if has_value else "without", "with" if want_value else "without"))
-        assigns = [st for st in node.body if isinstance(st, ast.Assign) and len(st.targets) == 1 and isinstance(st.targets[0], ast.Name)]
-        kinds = {st.targets[0].id: kind_of(m, st.value) for st in assigns}
         kind_sink, name = sink.split(":")
         # which assigned variable reaches the documented sink?
         var = None
@@ -212,12 +337,13 @@ def check_options(ctx, which, rule, table):
             ctx.ob(rule, site, got in accept, "%s is interpreted as %s" % (flag, kind), loc=loc,
                    msg="%s is interpreted as %s, documented as %s" % (flag, got, kind), expected=kind, found=got)
         # a branch only touches its own variables (order independence)
-        reads = set()
-        for st in node.body:
-            for nm in ast.walk(st):
-                if isinstance(nm, ast.Name) and isinstance(nm.ctx, ast.Load):
-                    reads.add(nm.id)
-        foreign = reads - set(kinds) - {"arg_next", "arg", "argv", "i", "verif", "np", "int", "float", "tod"}
+        if foreign is None:
+            reads = set()
+            for st in node.body:
+                for nm in ast.walk(st):
+                    if isinstance(nm, ast.Name) and isinstance(nm.ctx, ast.Load):
+                        reads.add(nm.id)
+            foreign = reads - set(kinds) - {"arg_next", "arg", "argv", "i", "verif", "np", "int", "float", "tod"}
         ctx.ob(rule, site, not foreign, "%s does not depend on other options" % flag, loc=loc, msg="the branch of %s reads %s" % (flag, sorted(foreign)), nontrivial=False)
     return br, top, rest, guard, final, loops
 
@@ -328,7 +454,18 @@ def check_arity_and_rejections(ctx, br, top, rest, guard, final, loops):
     plain = [n for n in ast.walk(cfg) if isinstance(n, ast.Assign) and any(dotted(t) == "extra" for t in n.targets)]
     ctx.ob("C13.5", site, bool(augs) and not plain, "tokens of every --config file are accumulated", loc=prog.loc(m, (plain or augs or [cfg])[0]),
            msg="inside the --config loop `extra` is overwritten (%s): only the last config file takes effect" % ([norm(p_) for p_ in plain] or "no accumulation found"))
-    ok = any(isinstance(n, ast.Assign) and norm(n) == "argv = argv + extra" for n in f.body) and f.body.index(loops[0]) < f.body.index(loops[1])
+    helper_calls = set(name for name, g in m.functions.items() if any(n is loops[0] for n in ast.walk(g)) and g is not f)
+    def appends_config(n):
+        if not (isinstance(n, ast.Assign) and len(n.targets) == 1 and dotted(n.targets[0]) == "argv" and isinstance(n.value, ast.BinOp)
+                and isinstance(n.value.op, ast.Add) and dotted(n.value.left) == "argv"):
+            return False
+        r = n.value.right
+        return dotted(r) == "extra" or (isinstance(r, ast.Call) and dotted(r.func) in helper_calls)
+    app = [i_ for i_, n in enumerate(f.body) if appends_config(n)]
+    ci = _top_stmt_index(f, loops[0])
+    if ci is None and app:
+        ci = app[0]
+    ok = bool(app) and ci is not None and ci <= app[0] < f.body.index(loops[1])
     ctx.ob("C13.5", site, ok, "config tokens are appended to argv before the single parsing loop", msg="argv = argv + extra before the option loop is gone")
     ctx.ob("C13.5", site, "split()" in norm(cfg), "config files are split on whitespace into tokens", msg="config tokenisation changed")
     # by value: what is added to `extra` is the whitespace split of the RAW line of the file (a '#', a quote or a comma inside a value is
@@ -528,7 +665,14 @@ def check_help(ctx, br):
                 documented[head] = const(call.args[1]) if len(call.args) > 1 else None
     ctx.need(len(documented) >= 70, "%s: fewer than 70 documented flags" % site)
     for flag in sorted(documented):
-        ctx.ob("C13.4", site, flag in br, "documented flag %s is parsed" % flag, msg="the help documents %s but the parser has no branch for it" % flag)
+        parsed = flag in br
+        if not parsed:
+            # by value: the option loop does something (and does not stop with 'Flag not recognized') when the argument is this flag
+            dm_ = ctx.prog.module("verif.driver")
+            lp_ = arg_loop(ctx.prog.func("verif.driver.run"), ctx.prog)
+            eff_ = option_effects(dm_, lp_[-1], flag) if lp_ else None
+            parsed = eff_ is not None and bool(eff_[0]) and eff_[1] in (1, 2)
+        ctx.ob("C13.4", site, parsed, "documented flag %s is parsed" % flag, msg="the help documents %s but the parser has no branch for it" % flag)
     undocumented = sorted(set(br) - set(documented))
     ctx.note("parsed but undocumented flags: %s" % undocumented)
     # -x names resolve to axis classes
